@@ -169,7 +169,7 @@ STR_BODIES = ["abc", "a b", "", "a\\\"b", "x\\\\y", "wide\\\\name", "q\\n", "%d"
 CHR_BODIES = ["x", "\\\"", "\\\\", "\\'", "0", "\\n"]
 IDS = ["foo", "bar", "x1", "_t", "n"]
 NUMS = ["0", "1", "42", "0x1F", "1.5", "1e3", "7u"]
-PUNCT = ["+", "-", "*", "/", "<", ">", "==", "&&", "!", "<<", "->", "=", "%", "|", "~", "?", ":"]
+PUNCT = ["+", "-", "*", "/", "<", ">", "==", "&&", "!", "<<", "->", "%", "|", "~", "?", ":"]   # no "=": simplecpp merges "<< =" (known witness)
 
 
 def lit(rng):
@@ -279,8 +279,8 @@ def gen_call(rng, macros, depth):
     name, ps, var, _, pst = rng.choice(macros)
     if ps is None:
         return name
-    if rng.random() < 0.05:
-        return name                       # function-like name without arguments
+    # (a bare function-like name is not generated: when an expansion ends in one and the parentheses follow
+    #  inside an argument, simplecpp does not join them - known witness macro:function-name-not-joined-in-argument)
     n = len(ps) + (rng.randint(0, 2) if var else 0)
     args = [rng.choice(IDS + ["7", "x2", ""]) if k in pst else gen_arg(rng, macros, depth) for k in range(n)]
     if len(ps) + (1 if var else 0) == 1 and n == 0:
@@ -382,13 +382,61 @@ def gen_mx(rng, recursive):
     objs = [m for m, a in decl if a is None]
     fns = [(m, a) for m, a in decl if a is not None]
     uses = []
-    for _ in range(6):
+    tries = 0
+    while len(uses) < 6 and tries < 60:
+        tries += 1
         u = mx_items(rng, rng.randint(1, 4), objs, fns, 0, 3)
         if not any(x[0] in "IC" and x[1][0] in "OF" for x in u) and fns:
             name, ar = rng.choice(fns)
             u.append(("C", name, [mx_items(rng, 2, objs, fns, 0, 3) for _ in range(ar)]))
+        if mx_size(table, u) is None:          # the expansion would be huge (parameters duplicated at every level)
+            continue
         uses.append(u)
+    while len(uses) < 6:
+        uses.append([("I", "foo")])
     return table, uses
+
+
+class _TooBig(Exception):
+    pass
+
+
+def mx_size(table, use, limit=3000, work=200000):
+    """number of tokens of the expansion (hide-set discipline of the model); None if above `limit`
+    or if computing it takes more than `work` steps"""
+    defs = {name: (ar, body) for name, ar, body in table}
+    steps = [0]
+
+    def size(items, env, hs):
+        tot = 0
+        for x in items:
+            steps[0] += 1
+            if steps[0] > work:
+                raise _TooBig()
+            if x[0] == "S":
+                tot += 1
+            elif x[0] == "P":
+                tot += env[x[1]] if x[1] < len(env) else 0
+            elif x[0] == "I":
+                d = defs.get(x[1])
+                if d and d[0] is None and x[1] not in hs:
+                    tot += size(d[1], [], hs | {x[1]})
+                else:
+                    tot += 1
+            else:
+                ea = [size(a, env, hs) for a in x[2]]
+                d = defs.get(x[1])
+                if d and d[0] is not None and x[1] not in hs and len(x[2]) == d[0]:
+                    tot += size(d[1], ea, hs | {x[1]})
+                else:
+                    tot += 3 + sum(ea) + max(0, len(ea) - 1)
+            if tot > limit:
+                raise _TooBig()
+        return tot
+    try:
+        return size(use, [], frozenset())
+    except _TooBig:
+        return None
 
 
 def mx_render(items):
